@@ -14,7 +14,7 @@ _CACHE = {}
 
 def pools():
     if "u" not in _CACHE:
-        _CACHE["u"] = GP.build_specs()
+        _CACHE["u"] = GP.build_specs() + GP.build_custom_specs()
         _CACHE["c"] = GP.build_channel_specs()
         _CACHE["by_name"] = {s.name: s for s in _CACHE["u"] + _CACHE["c"]}
     return _CACHE
